@@ -45,11 +45,31 @@ def group_counting(run, ctx):
         evs = p.events
         tl = [ev for ev in evs if ev.kind == "let" and ev.a.startswith("(") and "skip" in ev.a]
         arm = [ev for ev in evs if ev.kind == "arm" and ev.a.startswith("(") and ev.a == (tl[0].a if tl else None)]
-        res = [ev for ev in evs if ev.kind == "let" and ev.a == "result"]
-        if not tl or not arm or not res:
+        res = [ev for ev in evs if ev.kind == "let" and re.match(r"^Expr::(Group|LookAround|AtomicGroup)\(", ev.b or "")]
+        if not tl or not res:
             continue   # paths that return through parse_flags / parse_conditional / named backrefs
-        if not _tuple_arm_ok(tl[0].b, arm[0].b):
-            continue
+        if arm:
+            if not _tuple_arm_ok(tl[0].b, arm[0].b):
+                continue
+        else:
+            # the same decision written as an if-let chain on `la` and a test of `skip`: keep the feasible paths
+            mt = re.match(r"^\((\w+),(\w+)\)$", tl[0].a)
+            val = tl[0].b
+            first = val[1:-1].split(",", 1)[0] if val.startswith("(") else ""
+            second = val[1:-1].split(",", 1)[1] if val.startswith("(") and "," in val else ""
+            feas = bool(mt)
+            if mt:
+                LA_, SK_ = mt.group(1), mt.group(2)
+                for ev in evs:
+                    if ev.kind == "letcond" and ev.b == LA_ and (ev.a or "").startswith("Some("):
+                        feas = feas and (first.startswith("Some(") == bool(ev.c))
+                    if ev.kind == "arm" and ev.a == LA_:
+                        feas = feas and (first.startswith("Some(") == (ev.b or "").startswith("Some("))
+                    if ev.kind == "cond" and ev.a in ("(2 == %s)" % SK_, "(%s == 2)" % SK_):
+                        # (a computed skip -- prefix plus the length of `<name>` -- is more than 2, as in _tuple_arm_ok)
+                        feas = feas and ((second == "2") == bool(ev.b))
+            if not feas:
+                continue
         n += 1
         incs = [i for i, ev in enumerate(evs) if ev.kind == "assign" and ev.a == "self.curr_group"]
         names = [i for i, ev in enumerate(evs) if ev.kind == "call" and ev.a.startswith("self.named_groups.insert(")]
